@@ -266,6 +266,15 @@ func solveAll(jobs []solveJob, timeout time.Duration, par int, all bool) {
 					os.WriteFile(f2, []byte(q2), 0o644)
 					r2 := solveQuery(f2, to/2, false)
 					if r2[0].result != "unsat" {
+						// a tighter cone of influence (still a subset of the assumptions, so unsat is a proof)
+						q1 := j.x.queryForDepth(&sub, false, 1)
+						f1 := filepath.Join(j.dir, sanitize(o.Name)+fmt.Sprintf(".case%d.near1.smt2", ci))
+						os.WriteFile(f1, []byte(q1), 0o644)
+						if r1 := solveQuery(f1, to/2, false); r1[0].result == "unsat" {
+							r2 = r1
+						}
+					}
+					if r2[0].result != "unsat" {
 						q2 = j.x.queryFor(&sub, false)
 						f2 = filepath.Join(j.dir, sanitize(o.Name)+fmt.Sprintf(".case%d.smt2", ci))
 						os.WriteFile(f2, []byte(q2), 0o644)
